@@ -9,7 +9,7 @@ NW = 10
 ACTS_VALUE = ['y1,{n}', 'y2,{n}', 'e{n}', 'r-', 'r7', 're', 'xu3', 'xs', 'xt', 'rr']
 ACTS_THROW = ['rr', 'rr', 'y99,{n}', 'e{n}', 'r8', 'r-', 'xu4', 'xr', 're']
 ACTS_EXIT = ['rr', 'rr', 'rr', 'r-', 'r5', 'xu5', 'y77,{n}', 'xr', 'xg', 'xs']
-OPS = ['s-', 's5', 'tu1', 'tu7', 'tg', 'c', 'ts']
+OPS = ['s-', 's5', 'tu1', 'tu7', 'tg', 'c', 'ts', 'tu900', 'tu901', 'tu902']
 
 
 def rand_script(rng, compliant=None):
@@ -45,7 +45,7 @@ def script_compliant(script):
 def gen_cases(rng, quick, widen=False):
     cases = []
     maxlen = 3 if quick else 4
-    alpha = ['s-', 's5', 'tu7', 'tg', 'c']
+    alpha = ['s-', 's5', 'tu7', 'tg', 'c', 'tu900']
     allops = [list(o) for L in range(1, maxlen + 1) for o in itertools.product(alpha, repeat=L)]
     for kind in ('gen', 'coro', 'agen'):
         for sc in FIXED_SCRIPTS:
